@@ -117,15 +117,32 @@ def rule_worklist(ctx):
             match("__rng.get('anchor')", n.test) is not None]
     aok = False
     if anch:
-        inner = [c for s in anch[0].body for c in ast.walk(s)
-                 if isinstance(c, ast.Call) and call_name(c) in (
-                     'append', 'extend') and norm_src(c.func.value) == stack]
-        fn = [c for s in anch[0].body for c in ast.walk(s)
-              if isinstance(c, ast.Call) and call_name(c) == 'add_function']
-        if inner and fn:
-            pushed = norm_src(inner[0].args[0])
-            inputs = kwarg(fn[0], 'inputs')
-            aok = inputs is not None and pushed in norm_src(inputs)
+        # the branch itself, or a private helper it hands the work-list to
+        scopes = [(anch[0].body, stack)]
+        for s in anch[0].body:
+            for c in ast.walk(s):
+                if not (isinstance(c, ast.Call) and any(
+                        norm_src(a) == stack for a in c.args)):
+                    continue
+                for e in ctx.cg._resolve_callee(f, c.func, c, 'call'):
+                    if e.is_ext or e.precision != 'exact':
+                        continue
+                    h = e.dst
+                    prm = h.params[1:] if h.cls is not None else h.params
+                    for i, a in enumerate(c.args):
+                        if norm_src(a) == stack and i < len(prm):
+                            scopes.append((h.node.body, prm[i]))
+        for body, wl in scopes:
+            inner = [c for s in body for c in ast.walk(s)
+                     if isinstance(c, ast.Call) and call_name(c) in (
+                         'append', 'extend') and norm_src(c.func.value) == wl]
+            fn = [c for s in body for c in ast.walk(s)
+                  if isinstance(c, ast.Call) and call_name(c) == 'add_function']
+            if inner and fn:
+                pushed = norm_src(inner[0].args[0])
+                inputs = kwarg(fn[0], 'inputs')
+                aok = aok or (inputs is not None and
+                              pushed in norm_src(inputs))
     if aok:
         rr.ok('an anchor (A1#) links to the spill range and pushes that range',
               '%s:%d' % (EXCEL, anch[0].lineno))
@@ -215,9 +232,13 @@ def rule_drop(ctx):
     for r, g in none_rets:
         rr.instances += 1
         gt = ' and '.join(g)
+        cellp0 = ac.params[1] if len(ac.params) > 1 else 'cell'
         if 'in self.cells' in gt and len(g) == 1:
             rr.ok('drop: duplicate (already loaded) - `%s`' % gt,
                   '%s:%d' % (EXCEL, r.lineno))
+        elif len(g) == 1 and gt.startswith('not %s.add(' % cellp0):
+            rr.ok('drop: Cell.add() reported nothing to add (blank cell) - '
+                  '`%s`' % gt, '%s:%d' % (EXCEL, r.lineno))
         elif fr_param and fr_param in gt:
             # the caller must enqueue the covering formula
             handled = False
